@@ -18,6 +18,7 @@ func init() {
 }
 
 func runC23(c *Ctx) {
+	c23IntNoStale(c)
 	const pk = "cryptobyte"
 	// ---------- readASN1 header
 	if f := c.fn(pk, "(*String).readASN1"); f != nil {
